@@ -291,6 +291,9 @@ fn main() {
     }
     let shard = Shard::from_args(args);
     let thorough = shard.tier == "thorough";
+    if !shard.out.is_empty() && shard.out != "-" && !shard.args.has("child") {
+        simnet::hang::install(&prop.to_uppercase(), &shard.out);
+    }
     let mut d = Driver {
         shard: &shard,
         rep: Report::new(&prop),
